@@ -18,7 +18,7 @@ CHECKS = {
         ref="DESIGN 3/C15",
         note=TB + "; memoisation of any kind is treated as state (the library documents itself as stateless)"),
     "C17": dict(
-        technique="static effect analysis + control dependence (ast CFG, guard-literal dataflow, reaching definitions): I/O primitives reachable through the resolved call graph must be dominated by the show/save_report tests; polarity of the validity guard around the preview's hex rendering; raw-entry provenance of converter arguments in the report region; destructuring in the preview region dominated by a test of the unpacked name",
+        technique="static effect analysis + control dependence (ast CFG, guard-literal dataflow, reaching definitions): I/O primitives reachable through the resolved call graph must be dominated by the show/save_report tests; polarity of the validity guard around the preview's hex rendering; raw-entry provenance of converter arguments in the report region; destructuring in the preview region dominated by a test of the unpacked name; CFG reachability of the raw returned value to the preview call avoiding hex-rendering / re-reading nodes",
         category="other",
         text="Enumerates every I/O primitive reachable from the public API and proves, over all CFG paths, that each executes only under the "
              "requested flag (conditional I/O summaries are translated through call sites), that constructors/queries reach none, that nothing defined "
